@@ -19,7 +19,10 @@ Offs == (0 - OffN)..OffN
 InSpells(x) == x \in Spells
 InForms(x) == x \in Forms
 SpellSeq == SelectSeq(<<"time", "qtime", "Time", "TIME">>, InSpells)
-FormSeq == SelectSeq(<<"int", "rfc", "dt", "date", "dur", "now">>, InForms)
+\* "intm" / "intp": an integer timestamp minus / plus a duration ( 946688400000000000 - 1h ); "rfcm" / "rfcp": the
+\* same with an RFC3339 string.  Reduce folds them to a time literal.
+FormSeq == SelectSeq(<<"int", "rfc", "dt", "date", "dur", "now", "intm", "intp", "rfcm", "rfcp">>, InForms)
+ArithForms == {"intm", "intp", "rfcm", "rfcp"}
 
 \* which literal forms can denote the instant (k, d)
 FormOK(k, d, f) ==
@@ -29,6 +32,7 @@ FormOK(k, d, f) ==
     [] f = "dt"   -> LitInRange(I(k, d))
     [] f = "date" -> d = 0 /\ k \in DateBases
     [] f = "now"  -> LitInRange(I(k, d)) /\ ~(EdgeMap /\ k = 1)   \* MinTime is > 292 years before now()
+    [] f \in ArithForms -> LitInRange(I(k, d)) /\ ~EdgeMap /\ k \in 1..4   \* an hour of room on both sides
 FormsFor(k, d) == LET T(f) == FormOK(k, d, f) IN SelectSeq(FormSeq, T)
 
 OpIdx(op) == CASE op = "=" -> 0 [] op = "<" -> 1 [] op = "<=" -> 2 [] op = ">" -> 3 [] op = ">=" -> 4
